@@ -53,6 +53,12 @@ type Config struct {
 	// buffered, 3 a write larger than the buffer (a non-final frame is out) and
 	// no final flush. PrevUse&4: DisableFlush() in the previous life.
 	PrevUse int `json:"prev_use,omitempty"`
+	// Default, if > 0, is the value of the exported variable
+	// wsutil.DefaultWriteBuffer while the writer is constructed (an application
+	// may change the documented default buffer size); it matters for the
+	// constructors that fall back to the default: "new", and "size" / "bufsize" /
+	// "get" with an N that selects it.
+	Default int `json:"default_write_buffer,omitempty"`
 }
 
 // Extension bits of Config.Ext.
@@ -113,6 +119,9 @@ func RawLen(c Config) int {
 		return RawLen(p)
 	}
 	def := wsutil.DefaultWriteBuffer
+	if c.Default > 0 {
+		def = c.Default
+	}
 	switch c.Ctor {
 	case "new":
 		return def
@@ -141,6 +150,32 @@ func RawLen(c Config) int {
 		return n
 	}
 	panic("wh: unknown ctor " + c.Ctor)
+}
+
+// UsesDefault reports whether c's constructor falls back to the default buffer size.
+func UsesDefault(c Config) bool {
+	switch c.Ctor {
+	case "new":
+		return true
+	case "size":
+		return c.N <= 0
+	case "bufsize", "get":
+		return c.N <= ws.MinHeaderSize
+	}
+	return false
+}
+
+// SizeBounds are the documented limits of Size() for a freshly constructed
+// writer (not from the pool, no previous life): the backing buffer of RawLen(c)
+// bytes minus a header reservation of ws.MinHeaderSize..ws.MaxHeaderSize bytes.
+// ok is false when the documentation does not pin the buffer (pooled writers,
+// second lives).
+func SizeBounds(c Config) (lo, hi int, ok bool) {
+	if c.Reuse != "" || (c.Ctor == "get" && !UsesDefault(c)) {
+		return 0, 0, false
+	}
+	raw := RawLen(c)
+	return raw - ws.MaxHeaderSize, raw - ws.MinHeaderSize, true
 }
 
 // MinRaw is the smallest backing buffer that fits a header and one payload
@@ -210,6 +245,13 @@ func ExpectRsv(ext int, op byte, first bool) byte {
 // New constructs and configures a writer per c. c must be Legal.
 func New(c Config, dest io.Writer) *wsutil.Writer {
 	var w *wsutil.Writer
+	if c.Default > 0 {
+		// the package's tests run sequentially; the variable is restored right
+		// after construction (it is only read by the constructors)
+		saved := wsutil.DefaultWriteBuffer
+		wsutil.DefaultWriteBuffer = c.Default
+		defer func() { wsutil.DefaultWriteBuffer = saved }()
+	}
 	if c.Reuse == "" {
 		w = construct(c.Ctor, c.N, dest, c.State(), ws.OpCode(c.Op))
 	} else {
